@@ -19,7 +19,19 @@ from sympy.utilities.lambdify import lambdify
 
 from formak import common
 
-DEFAULT_MODULES = ("scipy", "numpy", "math", {"sec": lambda v: 1.0 / np.cos(v)})
+DEFAULT_MODULES = (
+    "scipy",
+    "numpy",
+    "math",
+    {
+        "sec": lambda v: 1.0 / np.cos(v),
+        # Without an implementation sympy prints these by rewriting the whole
+        # expression in terms of exp, which turns x**2 into exp(2*log(x))
+        "sech": lambda v: 1.0 / np.cosh(v),
+        "csch": lambda v: 1.0 / np.sinh(v),
+        "coth": lambda v: 1.0 / np.tanh(v),
+    },
+)
 
 
 @dataclass(frozen=True)
